@@ -71,6 +71,10 @@ def render(shape, cfg, split='one', default_ty='u8'):
             return ''
         if split == 'one':
             return '%s#[educe(%s)]\n' % (ind, ', '.join(metas))
+        if split == 'onec':     # one list with a trailing comma (the multi-line rustfmt layout)
+            return '%s#[educe(%s,)]\n' % (ind, ', '.join(metas))
+        if split == 'eachc':
+            return ''.join('%s#[educe(%s,)]\n' % (ind, m) for m in metas)
         return ''.join('%s#[educe(%s)]\n' % (ind, m) for m in metas)
 
     def fty(vi, fi):
@@ -186,7 +190,7 @@ def group_configs(group, shape, level='small', partner=False):
         if union:
             mk('unsafe' + ('+Eq' if partner else ''), tl)
         else:
-            for carrier in (['PartialEq', 'Eq'] if partner and level == 'full' else ['PartialEq']):
+            for carrier in (['PartialEq', 'Eq'] if partner and level != 'plain' else ['PartialEq']):
                 for asg in _field_products(shape, 'cim', maxdev):
                     f = {}
                     for p, ch in asg.items():
@@ -199,7 +203,7 @@ def group_configs(group, shape, level='small', partner=False):
         if union:
             return []
         tl = ['PartialOrd'] + (['Ord'] if partner else [])
-        carriers = ['PartialOrd'] if not partner else (['Ord', 'PartialOrd'] if level == 'full' else ['Ord'])
+        carriers = ['PartialOrd'] if not partner else (['Ord', 'PartialOrd'] if level != 'plain' else ['Ord'])
         for carrier in carriers:
             for asg in _field_products(shape, 'cimr', maxdev):
                 f = {}
